@@ -490,3 +490,33 @@ let () =
     match new_header (getz kv "m" 2) (z_of_hex (get kv "x" "3f000000")) (List.map (fun (s, n) -> { ai_off = Z0; ai_step = s; ai_n = n }) layout) with
     | None -> obs "cligensize err"
     | Some h -> obs "cligensize ok size=%s" (dec_of_z (expected_file_size h)))
+
+(* the server's /sum handler on a raw query (Model/Server.v handle_sum); the files its item and pattern match
+   are the driver's glob oracle, valid for the (item, pattern) the driver read from the query *)
+let () =
+  let unhexs h = if h = "-" then [] else Ops_text.str_of_hex h in
+  register "clirawsum" (fun tk ->
+    let kv = kv_of tk in
+    let raw = unhexs (get kv "q" "-") in
+    let item0 = unhexs (get kv "item" "-") and pat0 = unhexs (get kv "pattern" "-") in
+    let files = get kv "files" "-" in
+    let mismatch = ref false in
+    let glob (item : z list) (pattern : z list) : handle option list =
+      if item <> item0 || pattern <> pat0 then (mismatch := true; [])
+      else if files = "BADPATTERN" then [Lazy.force unopenable]
+      else List.map lookup (split_on ',' files) in
+    let r = handle_sum flocq_fops glob raw in
+    if !mismatch then obs "clirawsum oracle-mismatch" else
+    match r with
+    | HBadRequest -> obs "clirawsum bad"
+    | HServerError -> obs "clirawsum err"
+    | HPanic -> obs "clirawsum transport-error"
+    | HBody [] -> obs "clirawsum notexist"
+    | HBody b ->
+      (match client_view b with
+       | WOk (hd, l) ->
+         obs "clirawsum ok";
+         obs "out wirehdr %s" (Ops_codec.show_header hd);
+         List.iter (fun s -> obs "out %s" (show_fetch (FSeries s))) l;
+         obs "out rest 0"
+       | _ -> obs "clirawsum undecodable-header"))
